@@ -940,7 +940,23 @@ func (e *c29Eval) agg(n *c29Node, in []c29V) c29Out {
 			if len(fs) == 0 {
 				continue
 			}
-			emit(c29Quantile(param, fs, e.quirkQuantileInf))
+			qv := c29Quantile(param, fs, e.quirkQuantileInf)
+			if qv == 0 {
+				pos, neg := false, false
+				for _, f := range fs {
+					if f == 0 {
+						if math.Signbit(f) {
+							neg = true
+						} else {
+							pos = true
+						}
+					}
+				}
+				if pos && neg {
+					out.ZeroTie = true // the order of equal zeros in the sort decides the sign
+				}
+			}
+			emit(qv)
 		case "count_values":
 			emit(float64(len(g.elems)))
 		case "topk", "bottomk", "limitk":
